@@ -288,6 +288,11 @@ func Sleep(d time.Duration) {
 // (0 = back to an arbitrary non-decreasing clock). Natively the real clock is used.
 func ConcreteClock(step int64) { veriftime.Control(step) }
 
+// NCSHold / NCSRelease: the k-th request to the credit service is received but not answered until the release.
+// Natively no-ops: the harness's recording endpoint follows the same plan.
+func NCSHold(k int) {}
+func NCSRelease()   {}
+
 // NCSFail tells the engine's credit-service stub that the k-th request (0-based) is received and then fails.
 // Natively a no-op: the harness's own recording endpoint follows the same plan.
 func NCSFail(k int) {}
